@@ -304,7 +304,7 @@ Section Decoders.
     destruct (f_payload f) as [text|].
     - destruct (parse text) as [j| j |].
       + rewrite <- decode_struct_some_iff.
-        destruct (decode_struct Jsoniter false j) as [b|].
+        destruct (decode_struct StdJson false j) as [b|].
         * split; [intros _; eauto|intros _; do 4 eexists; reflexivity].
         * split; [intros (? & ? & ? & ? & H); exfalso; exact (NB _ _ _ _ H)|intros (? & [=])].
       + split; [intros (? & ? & ? & ? & H); exfalso; exact (NB _ _ _ _ H)|discriminate].
@@ -322,8 +322,8 @@ Section Decoders.
     unfold ws_well_formed in H. unfold decode_payload.
     destruct (f_payload f) as [text|]; [|destruct p; cbn; auto].
     destruct (parse text) as [j| j |]; try (destruct p; cbn; auto; fail).
-    destruct (decode_struct Jsoniter false j) as [b|] eqn:E; [|destruct p; cbn; auto].
-    assert (S : shape_ok Jsoniter false j = true) by (apply decode_struct_some_iff; eauto). congruence.
+    destruct (decode_struct StdJson false j) as [b|] eqn:E; [|destruct p; cbn; auto].
+    assert (S : shape_ok StdJson false j = true) by (apply decode_struct_some_iff; eauto). congruence.
   Qed.
 End Decoders.
 
@@ -423,7 +423,7 @@ Section Roundtrip.
                 WWs p {| f_type := start_type p; f_id := id; f_payload := Some (render (body_json true o)) |}) by (destruct p; reflexivity).
     rewrite E. cbn [decode]. unfold handle_message. cbn [f_type f_id f_payload]. rewrite bytes_eqb_refl. cbn [negb].
     unfold decode_payload. rewrite jsi_faithful by (apply C; destruct p; left; reflexivity).
-    rewrite (decode_body_json Jsoniter false true o W). cbn [b_query b_opname b_vars]. destruct o; reflexivity.
+    rewrite (decode_body_json StdJson false true o W). cbn [b_query b_opname b_vars]. destruct o; reflexivity.
   Qed.
 
   (** all of them at once *)
@@ -764,23 +764,51 @@ Proof.
   assert (X : existsb (fun p => has_range (snd p)) kvs = true) by (apply existsb_exists; eauto). congruence.
 Qed.
 
-(** on the wire: the same JSON text as POST application/json body (no ?query=) and as start /
-    subscribe payload is read as the same operation *)
-Theorem post_body_and_ws_payload_agree parse_std parse_jsi text kvs p id o x :
-  parse_std text = PTree (JObj kvs) -> parse_jsi text = PTree (JObj kvs) ->
-  fold_members StdJson kvs = fold_members Jsoniter kvs ->
-  has_range (JObj kvs) = false -> single_string_members (fold_members StdJson kvs) = true ->
-  decode fixed parse_std parse_jsi (WHttp {| e_method := m_post; e_media := mt_json; e_url := []; e_body := text |}) = Some (o, x) ->
-  decode fixed parse_std parse_jsi (WWs p {| f_type := start_type p; f_id := id; f_payload := Some text |}) = Some (o, None).
+(** after the repair both transports use encoding/json: whatever the body decoder (which also
+    reads "extensions") accepts, the payload decoder accepts, as the same operation *)
+Lemma df_ext_irrelevant kvs : forall b1 b2,
+  body_op b1 = body_op b2 ->
+  forall r1, decode_fields StdJson true kvs b1 = Some r1 ->
+  exists r2, decode_fields StdJson false kvs b2 = Some r2 /\ body_op r1 = body_op r2.
 Proof.
-  intros Ps Pj FE NR SG. cbn [decode]. unfold new_request_from_http. cbn [e_method e_media e_url e_body].
+  induction kvs as [|[k v] r IH]; intros b1 b2 EQ r1 D.
+  - cbn in D. injection D as <-. exists b2. split; [reflexivity|exact EQ].
+  - unfold body_op in EQ. injection EQ as Eq1 Eq2 Eq3.
+    cbn [decode_fields] in D |- *.
+    destruct (key_is k_query k).
+    { rewrite <- Eq1. destruct (set_string StdJson (b_query b1) v) as [s|]; [|discriminate].
+      refine (IH _ _ _ _ D). unfold body_op; cbn; congruence. }
+    destruct (key_is k_opname k).
+    { rewrite <- Eq3. destruct (set_string StdJson (b_opname b1) v) as [s|]; [|discriminate].
+      refine (IH _ _ _ _ D). unfold body_op; cbn; congruence. }
+    destruct (key_is k_variables k).
+    { rewrite <- Eq2. destruct (set_map (b_vars b1) v) as [m|]; [|discriminate].
+      refine (IH _ _ _ _ D). unfold body_op; cbn; congruence. }
+    cbn [andb]. destruct (key_is k_extensions k); cbn [andb] in D.
+    { destruct (set_map (b_ext b1) v) as [m|]; [|discriminate].
+      refine (IH _ _ _ _ D). unfold body_op; cbn; congruence. }
+    refine (IH _ _ _ _ D). unfold body_op; congruence.
+Qed.
+
+(** on the wire: the same JSON text as POST application/json body (no ?query=) and as start /
+    subscribe payload is read as the same operation — for every text, without side conditions *)
+Theorem post_body_and_ws_payload_agree parse_std text p id o x :
+  decode fixed parse_std parse_std (WHttp {| e_method := m_post; e_media := mt_json; e_url := []; e_body := text |}) = Some (o, x) ->
+  decode fixed parse_std parse_std (WWs p {| f_type := start_type p; f_id := id; f_payload := Some text |}) = Some (o, None).
+Proof.
+  cbn [decode]. unfold new_request_from_http. cbn [e_method e_media e_url e_body].
   change (bytes_eqb m_post m_get) with false. change (bytes_eqb m_post m_post) with true.
   change (bytes_eqb mt_json mt_json) with true. cbn match.
-  unfold decode_post_body. rewrite Ps.
-  destruct (decode_struct StdJson true (JObj kvs)) as [b|] eqn:D; [|discriminate].
-  destruct (std_jsoniter_agree kvs b FE NR SG D) as (b' & D' & EQ).
+  unfold decode_post_body. cbn [q_trailing fixed].
+  destruct (parse_std text) as [j| j |] eqn:Ps; try discriminate.
+  destruct (decode_struct StdJson true j) as [b|] eqn:D; [|discriminate].
+  assert (D' : exists b', decode_struct StdJson false j = Some b' /\ body_op b = body_op b').
+  { destruct j; cbn [decode_struct] in *; try discriminate.
+    - injection D as <-. eexists. split; reflexivity.
+    - eapply df_ext_irrelevant; [reflexivity|exact D]. }
+  destruct D' as (b' & D' & EQ).
   intros [= <- <-]. unfold handle_message. cbn [f_type f_id f_payload]. rewrite bytes_eqb_refl. cbn [negb].
-  unfold decode_payload. rewrite Pj, D'. unfold body_op in EQ. injection EQ as E1 E2 E3.
+  unfold decode_payload. rewrite Ps, D'. unfold body_op in EQ. injection EQ as E1 E2 E3.
   cbn [url_get q_overwrite fixed orb]. unfold op_of_request. cbn [r_query r_vars r_opname].
   rewrite <- E1, <- E2, <- E3. f_equal. f_equal.
   destruct (b_query b); reflexivity.
